@@ -362,10 +362,22 @@ example : WavOk [.leaf [0x64, 0x61, 0x74, 0x61] [1, 2, 3], .list [0x49, 0x4e, 0x
    by decide⟩
 
 /-- GIF, writer in the field order the DECODER has: header, logical screen descriptor, global colour table, any number of
-    extension and image blocks with their sub-block chains (at least one sub-block, each 1..255 bytes, zero terminator),
-    trailer — everything is read back, bytes after the trailer untouched -/
+    extension and image blocks with their sub-block chains (ANY number of sub-blocks incl. none — the lone terminator —,
+    each 1..255 bytes, zero terminator), trailer — everything is read back, bytes after the trailer untouched -/
 theorem gif_blocks_roundtrip (g : GifFile) (ok : GifOk g) (rest : Bytes) : parseGif (writeGifAsIs g ++ rest) = some (g, rest) :=
   gif_rt g ok rest
+
+/-- a file with an empty comment extension (`21 FE 00`) and an image without data is in the domain -/
+example : GifOk { header := gif89a, width := 1, height := 1, gcp := false, cres := 1, zero := 0, bd := 1, black := 0, par := 0, gcm := none,
+                  blocks := [.ext 0x21 0xfe [], .image 0x2c 0 0 1 1 false false 0 1 2 none []], term := 0x3b } :=
+  ⟨Or.inr rfl, (by decide), (by decide), (by decide), (by decide), (by decide), (by decide), (by decide), (by intro h; cases h), (by intro _; rfl),
+   (by
+    intro b hb
+    simp only [List.mem_cons, List.mem_nil_iff, or_false] at hb
+    rcases hb with h | h <;> subst h
+    · exact ⟨rfl, (by decide), Or.inl rfl⟩
+    · exact ⟨rfl, (by decide), (by decide), (by decide), (by decide), (by decide), (by decide), (by decide), (by decide), (by intro h; cases h), (by intro _; rfl), Or.inl rfl⟩),
+   rfl⟩
 
 /- FULL STATEMENT (false of the current code — known finding `gif-local-color-map-order`): an image written as the GIF
    specification says (local colour table, THEN the LZW minimum code size) is reported with that code size and that table.
